@@ -357,6 +357,7 @@ func (u *Unit) load(st *State, addr *Term, t types.Type, guard *Term) *SV {
 	if s := u.leafSort(t); s != nil {
 		x := u.readThrough(u.heapArr(st, s), addr, guard)
 		u.assumeTypeInv(x, t, st, guard)
+		u.regionFacts(addr, s)
 		return leaf(x)
 	}
 	switch tt := t.Underlying().(type) {
